@@ -48,6 +48,62 @@ EXTRA_HARNESSES = {"C01": ["tok", "fmt", "misc", "cons", "wfmt"], "C02": ["tok",
                    "C05": ["fmt", "misc", "cons", "wfmt"], "C06": ["misc"], "C08": ["fmt", "misc", "wfmt"]}
 
 
+SAN_ENV = dict(ASAN_OPTIONS="detect_leaks=0:abort_on_error=1:allow_user_segv_handler=1:handle_segv=0:handle_sigbus=0:print_summary=1:check_printf=0", UBSAN_OPTIONS="print_stacktrace=1")
+
+
+def parse_sanitizer(stderr_text):
+    """-> list of (access, key-part, text): ASan error blocks and UBSan 'runtime error' lines that name a library source file.
+    access is 'W', 'R' or '?'."""
+    import re
+    out = {}
+    for blk in re.split(r"(?==+\d+==ERROR: AddressSanitizer)", stderr_text):
+        m = re.search(r"ERROR: AddressSanitizer: (\S+)", blk)
+        if not m:
+            continue
+        kind = m.group(1)
+        acc = "W" if re.search(r"\bWRITE of size", blk) else "R" if re.search(r"\bREAD of size", blk) else "?"
+        frames = re.findall(r"#\d+ 0x[0-9a-f]+ in (\S+) (\S+)", blk)
+        lib = [(f, loc) for f, loc in frames if "/repo/src/" in loc or "/src/" in loc and "/verif/" not in loc]
+        if not lib:
+            continue                      # a report without a library frame is the harness's own business (would be a harness error)
+        fn = lib[0][0]
+        out.setdefault((acc, "asan:%s|%s" % (kind, fn)), blk.strip()[:1500])
+    for m in re.finditer(r"^(\S*/src/\S+?):(\d+):\d+: runtime error: (.*)$", stderr_text, re.M):
+        f, line, msg = m.group(1), m.group(2), m.group(3)
+        if "/verif/harness" in f:
+            continue
+        cls = re.sub(r"-?\b\d+\b", "N", msg)[:60]
+        acc = "W" if "store to" in msg else "R" if ("load of" in msg or "index" in msg) else "?"
+        out.setdefault((acc, "ubsan:%s|%s:%s" % (cls, os.path.basename(f), line)), m.group(0)[:400])
+    return [(a, k, t) for (a, k), t in out.items()]
+
+
+def sanitizer_pass(prop, tier, res, modes=(0, 1)):
+    """The same workloads against an ASan+UBSan build of the library.  Only sanitizer reports count here (the monitors' own verdicts
+    come from the plain builds): they see what the guard pages cannot, accesses that leave a stack, global or heap object of the
+    library itself while staying in mapped memory."""
+    tmp = Results("SAN")
+    jobs = engine_jobs("SAN", tier, ["asan"], modes, nw=NCPU if tier == "thorough" else 6)
+    jobs += harness_jobs("queries", "SAN", tier, ["asan"], nw=NCPU if tier == "thorough" else 4)
+    jobs += mbconv_jobs("SAN", tier, ["asan"])
+    for h in ("tok", "fmt", "misc", "cons", "wfmt"):
+        jobs += harness_jobs(h, "SAN", tier, ["asan"], nw=1 if h in ("misc", "cons", "wfmt") else 4)
+    outs = run_workers(jobs, tmp, env=dict(os.environ, **SAN_ENV))
+    nrep = 0
+    for label, rc, out, err, dt in outs:
+        for acc, key, text in parse_sanitizer(err):
+            nrep += 1
+            want = "C01" if acc == "W" else "C02" if acc == "R" else prop
+            if want == prop:
+                res.add_violation(prop, "%s|sanitizer|%s" % (prop, key), "sanitizer report in a library frame (%s): %s" % (label, text.splitlines()[0][:200]),
+                                  dict(harness=label, report=text[:1200], replay="ASAN build: " + label))
+    res.count("sanitizer_build_calls", tmp.counters.get("calls", 0)); res.count("sanitizer_reports", nrep)
+    for l in tmp.incomplete:
+        res.incomplete.append("asan:" + l)
+    res.notes += tmp.notes[:5]
+    return tmp.counters.get("calls", 0)
+
+
 def _engine_check(prop, cfgs, level_text, assumptions, modes=(0,), queries=False):
     def run(tier):
         t0 = time.time()
@@ -64,9 +120,14 @@ def _engine_check(prop, cfgs, level_text, assumptions, modes=(0,), queries=False
             jobs += harness_jobs(h, prop, tier, ["plain", "noslack"] if (h in ("fmt", "misc", "cons", "wfmt") and "noslack" in cfgs) else ["plain"], nw=1 if h in ("misc", "cons", "wfmt") else 4)
             hs.append(h)
         run_workers(jobs, res)
+        builds = list(cfgs)
+        if prop in ("C01", "C02"):
+            sanitizer_pass(prop, tier, res)
+            builds.append("asan")
         res.evaluations = res.counters.get("calls", 0)
-        return finish(res, tier, "exploration", ENGINE_RULE + ("; " + QUERIES_RULE if queries else ""), t0,
-                      extra_cov=dict(builds=list(cfgs), harnesses=hs, explanation=level_text),
+        return finish(res, tier, "exploration", ENGINE_RULE + ("; " + QUERIES_RULE if queries else "") +
+                      ("; the same workloads once more against an ASan+UBSan build of the library, where only sanitizer reports with a library frame count" if prop in ("C01", "C02") else ""), t0,
+                      extra_cov=dict(builds=builds, harnesses=hs, explanation=level_text),
                       assumptions=assumptions, min_evals=1000)
     return run
 
